@@ -100,7 +100,7 @@ def run(module, cfg=None, *, workers=4, timeout=600, env=None, simulate=None, de
     # TLC resolves EXTENDS/INSTANCE relative to the module's directory; we add the others
     libs = os.pathsep.join(str(SPEC / d) for d in ("lib", "sys", "trace", "mc"))
     # java.io.tmpdir: TLC unpacks its standard modules into a tlc-* directory there; keep it inside the metadir
-    cmd = ["java", "-XX:+UseParallelGC", f"-Xmx{heap}", f"-DTLA-Library={libs}", f"-Djava.io.tmpdir={meta}"]
+    cmd = ["java", "-XX:+UseParallelGC", "-Xss16m", f"-Xmx{heap}", f"-DTLA-Library={libs}", f"-Djava.io.tmpdir={meta}"]
     if dfs:
         cmd.append("-Dtlc2.tool.queue.IStateQueue=StateDeque")
     cmd += ["-cp", JAR, "tlc2.TLC", "-metadir", meta, "-noGenerateSpecTE",
